@@ -224,7 +224,13 @@ func (st *State) builtin(g *Goroutine, fr *Frame, name string, args []Value) Val
 		if p.obj == nil {
 			return Slice{nil_: true, len: uint64(0)}
 		}
-		return Slice{obj: p.obj, off: p.off, len: uint64(n), cap: n, esz: 1}
+		esz := 1
+		if in, ok := fr.block.Instrs[fr.ip].(*ssa.Call); ok {
+			if pt, ok := in.Call.Args[0].Type().Underlying().(*types.Pointer); ok {
+				esz = st.eng.layout(pt.Elem()).n
+			}
+		}
+		return Slice{obj: p.obj, off: p.off, len: uint64(n), cap: n, esz: esz}
 	case "StringData":
 		str := args[0]
 		bs := st.strBytes(st.plainString(str))
